@@ -6,6 +6,7 @@ import Gopki.Spec.Subject
 import Gopki.Model.Hash
 import Gopki.Spec.Ext
 import Gopki.Spec.Shape
+import Gopki.Model.Paths
 /-! `pki`: one sign run over a generated directory, replayed on the model.  For every generated
     certificate the model's DER (with the observed oracle values: fresh key, drawn serial, "now",
     signature bits) must equal the bytes gopki wrote, and the specification clauses of C01–C07 are
@@ -82,18 +83,17 @@ def walkLess (a b : String) : Bool :=
     | x :: xs, y :: ys => if x < y then true else if y < x then false else go xs ys
   go (a.splitOn "/") (b.splitOn "/")
 
-def isConfigName (p : String) : Bool :=
-  let l := p.toLower
-  l.endsWith ".yaml" || l.endsWith ".yml" || l.endsWith ".json"
+/-- the suffix filter, the default alias and the artifact file name are the model's (`Gopki.Model.Paths`, with the theorems
+    `artifact_next_to_config`, `alias_is_base_name`, `isConfigName_has_dot`) -/
+def isConfigName (p : String) : Bool := Paths.isConfigName p.toList
 
 /-- `path[strings.LastIndex(path, "/")+1 : strings.LastIndex(path, ".")]` -/
 def baseAlias (p : String) : String :=
-  let file := (p.splitOn "/").getLast!
-  String.intercalate "." ((file.splitOn ".").dropLast)
+  match Paths.baseAlias p.toList with | some a => String.ofList a | none => ""
 
 /-- `configFileName[:strings.LastIndex(configFileName, ".")] + ".pem"` -/
 def artifactFileName (p : String) : String :=
-  String.intercalate "." ((p.splitOn ".").dropLast) ++ ".pem"
+  match Paths.artifactFileName p.toList with | some a => String.ofList a | none => ".pem"
 
 def certInfoOfDer (der : Bytes) (subjectKey : Nat) : Option Db.CertInfo := do
   let t ← X509.decodeDer der
